@@ -15,12 +15,15 @@ def plan(tier):
         conds.append(Cond("vf.h.h_disp", "h_elig", case=fc, timeout=600, env={"VF_ORACLE": "C10"}, label=f"H10-disp[fleetcfg={fc}]", weight=20))
     for o in (0, 1):
         conds.append(Cond("vf.h.h_enter", "h_enter_pool", case=o, timeout=600, label=f"H10-enter-pooling[plan starts with r{o}]", weight=8))
+    for k in range(8):
+        conds.append(Cond("vf.h.h_cfm", "h_cfm", case=k, timeout=900, label=f"H10-cfm[search={k // 4},placement={k % 4}]", weight=25))
+    conds.append(Cond("vf.h.h_cfm", "h_cfm_reach", case=1, timeout=300, expect="refute", label="H10-cfm-reach", weight=3))
     conds += match_conds("h_step_disp", "C10", tier, "H10-stepdisp", fcases=(3,) if tier == "quick" else (1, 2, 3))
     return {
         "conds": conds,
         "min_classes": 150,
-        "explanation": "C10: after any instruction / default transition the vehicle's activity target grants access to the vehicle's membership (5x5 grid of vehicle x target memberships incl. public, two fleets, both, private; the second station s1 carries a different membership than s0). H10-enter-pooling: direct entry into DispatchPoolingTrip over two requests with a 5x5x5 membership grid: accepted only if every request of the plan admits the vehicle. H10-disp / H10-stepdisp: the built-in Dispatcher never pairs across fleets.",
-        "entry_points": ['step_simulation_ops.apply_instructions', 'entity_state_ops.transition_previous_to_next (DispatchPoolingTrip.enter)', 'Dispatcher.generate_instructions', 'step_simulation_ops.step_vehicle (VehicleState.update -> default_update -> move/charge/idle/pick_up_trip/drop_off_trip)'],
+        "explanation": "C10: after any instruction / default transition the vehicle's activity target grants access to the vehicle's membership (5x5 grid of vehicle x target memberships incl. public, two fleets, both, private; the second station s1 carries a different membership than s0). H10-enter-pooling: direct entry into DispatchPoolingTrip over two requests with a 5x5x5 membership grid: accepted only if every request of the plan admits the vehicle. H10-disp / H10-stepdisp: the built-in Dispatcher never pairs across fleets. H10-cfm: one real ChargingFleetManager.generate_instructions over two vehicles (incl. both on one cell, different fleets) and two stations with symbolic memberships, under both charging search types: every DispatchStationInstruction names a station that admits the instructed vehicle and a plug it can use.",
+        "entry_points": ['step_simulation_ops.apply_instructions', 'entity_state_ops.transition_previous_to_next (DispatchPoolingTrip.enter)', 'Dispatcher.generate_instructions', 'ChargingFleetManager.generate_instructions (instruct_vehicles_to_dispatch_to_station, get_nearest_valid_station_distance, H3Ops.nearest_entity)', 'step_simulation_ops.step_vehicle (VehicleState.update -> default_update -> move/charge/idle/pick_up_trip/drop_off_trip)'],
         "bounds": C.ARENA_BOUNDS + C.T_BOUNDS,
         "outside": C.T_OUTSIDE,
         "stubs": C.STUBS_COMMON + C.STUBS_UPD,
